@@ -121,26 +121,46 @@ impl CliRun {
 /// cliproj <cli-binary> <cases.ndjson> <events.ndjson> <scratch-dir>
 /// case: {id, files: [{rel, text}], args: [..]}  -> event {ev: "CliRun", id, ...}
 pub fn run(args: &[String]) -> i32 {
-    let cli = &args[0];
-    let cases = read_ndjson(&args[1]);
-    let mut out = Out::create(&args[2]);
+    let cli = args[0].clone();
+    let cases = std::sync::Arc::new(read_ndjson(&args[1]));
+    let out = std::sync::Arc::new(std::sync::Mutex::new(Out::create(&args[2])));
     let scratch = PathBuf::from(&args[3]);
-    for (i, c) in cases.iter().enumerate() {
-        let files: Vec<(String, String)> = c["files"]
-            .as_array()
-            .unwrap()
-            .iter()
-            .map(|f| (f["rel"].as_str().unwrap().to_string(), f["text"].as_str().unwrap().to_string()))
-            .collect();
-        let a = strs(&c["args"]);
-        let dir = scratch.join(format!("p{i}"));
-        let r = run_project(cli, &dir, &files, &a, 60);
-        let mut e = r.to_json(c["texts"].as_bool().unwrap_or(true));
-        e["ev"] = json!("CliRun");
-        e["id"] = c["id"].clone();
-        e["dir"] = json!(dir.to_string_lossy());
-        out.emit(&e);
-        let _ = std::fs::remove_dir_all(&dir);
+    let workers: usize = args.get(4).and_then(|w| w.parse().ok()).unwrap_or(8);
+    let next = std::sync::Arc::new(std::sync::Mutex::new(0usize));
+    let mut hs = vec![];
+    for w in 0..workers {
+        let (cases, out, next, cli, scratch) = (cases.clone(), out.clone(), next.clone(), cli.clone(), scratch.clone());
+        hs.push(std::thread::spawn(move || loop {
+            let i = {
+                let mut n = next.lock().unwrap();
+                let i = *n;
+                *n += 1;
+                i
+            };
+            if i >= cases.len() {
+                break;
+            }
+            let c = &cases[i];
+            let files: Vec<(String, String)> = c["files"]
+                .as_array()
+                .unwrap()
+                .iter()
+                .map(|f| (f["rel"].as_str().unwrap().to_string(), f["text"].as_str().unwrap().to_string()))
+                .collect();
+            let a = strs(&c["args"]);
+            let dir = scratch.join(format!("w{w}_p{i}"));
+            let r = run_project(&cli, &dir, &files, &a, 60);
+            let mut e = r.to_json(c["texts"].as_bool().unwrap_or(true));
+            e["ev"] = json!("CliRun");
+            e["id"] = c["id"].clone();
+            e["dir"] = json!(dir.to_string_lossy());
+            out.lock().unwrap().emit(&e);
+            let _ = std::fs::remove_dir_all(&dir);
+        }));
     }
+    for h in hs {
+        h.join().unwrap();
+    }
+    out.lock().unwrap().flush();
     0
 }
